@@ -203,6 +203,9 @@ Definition assemble_snap (ps : list piece) : blob :=
   | _ => Corrupt (pieces_total ps)
   end.
 
+Definition snap_ahead (b : blob) (a : N) : bool :=
+  match b with Good sn => negb (eidx (s_e1 sn) <=? a) | Corrupt _ => false end.
+
 (* setTransmissionData: true when a complete file has been stored *)
 Definition set_transmission (p : snap_part) (s : S) : S * bool :=
   match p with
@@ -215,7 +218,11 @@ Definition set_transmission (p : snap_part) (s : S) : S * bool :=
     | Some ps =>
       let ps := ps ++ [(b, off, len)] in
       if last then
-        (upd (fun n => n <| sr := (sr n) <| stored := Some (assemble_snap ps) |> <| incoming := None |> |>) s, true)
+        (* the complete file replaces the stored one only when it is a snapshot ahead of this node's position *)
+        if snap_ahead (assemble_snap ps) (applied (nd s)) then
+          (upd (fun n => n <| sr := (sr n) <| stored := Some (assemble_snap ps) |> <| incoming := None |> |>) s, true)
+        else
+          (upd (fun n => n <| sr := (sr n) <| incoming := None |> |>) s, false)
       else
         (upd (fun n => n <| sr := (sr n) <| incoming := Some ps |> |>) s, false)
     end
